@@ -192,6 +192,21 @@ func genHist(r *Rng, tier string, n int, emit func(string)) {
 			}
 			k = 2 + cr.Intn(8)
 		}
+		if c%16 == 7 {
+			// a node whose key holds two or three infix catch-alls and has children: every clone of it carries a chain of
+			// inode sub-nodes (one per catch-all that is followed by more key) which must all see the children of the clone.
+			// Some routes are registered first, so that the shared node exists before the history edits below it. (Chosen by
+			// the case number, not by a draw, so that the other cases of a seed stay what they were.)
+			base := Pick(cr, []string{"/a/*{x}/b/*{y}/c/", "/*{v}/a/*{w}/", "/f/*{p}/g/*{q}/h/*{r}/i/", "/a/*{x}/b/*{y}/c"})
+			pool = []string{base + "d", base + "e", base + "dd", base + "d/f", base + "e/{z}", base + "d/*{t}"}
+			methods = methods[:1]
+			ops, hid = nil, 0
+			for _, i := range cr.Perm(len(pool))[:2+cr.Intn(2)] {
+				hid++
+				ops = append(ops, fmt.Sprintf("H,%s,%s,%d,%d", methods[0], hx(pool[i]), 0, hid))
+			}
+			k = 3 + cr.Intn(10)
+		}
 		for i := 0; i < k; i++ {
 			m := Pick(cr, methods)
 			p := Pick(cr, pool)
